@@ -215,7 +215,7 @@ func VH_C11_compare() {
 
 // Equals / Search against the reference order, keys of 0..2 columns, records of
 // 0..3 columns, per-column DESC and collation.
-//verif:bounds key 0..2 columns x record 0..2 columns (thorough: 0..3); values NULL/int64/text of 1 byte (two-column keys in quick: NULL/int64; thorough: + float64); DESC per key column; collation binary or nocase
+//verif:bounds key 0..2 columns x record 0..2 columns (thorough: 0..3); values NULL/int64/text of 1 byte (two-column keys: NULL/int64; thorough: + float64 for keys of <= 1 column); DESC per key column; collation binary or nocase
 //verif:shards 12
 //verif:prop C11,C20
 func VH_C11_search_equals() {
@@ -229,8 +229,8 @@ func VH_C11_search_equals() {
 	colls := make([]int, nk)
 	classes := [4]int{0, 1, 3, 2}
 	ncls := 3 + verifTier()
-	if nk == 2 && verifTier() == 0 {
-		ncls = 2 // quick: two-column keys over NULL/int64 only
+	if nk == 2 {
+		ncls = 2 // two-column keys over NULL/int64 only (both tiers)
 	}
 	for i := range key {
 		cls := classes[verifChoice(ncls)]
